@@ -2,6 +2,7 @@ package parith
 
 import (
 	"fmt"
+	"os"
 	"strings"
 	"testing"
 
@@ -98,7 +99,7 @@ func c07Run(t vlib.TB, chk string, e *env, c C07Case) (wrote int) {
 		if sig == "" {
 			sig = "c07-target-below-readiness-" + slug(k)
 		}
-		before, _ := e.knob()
+		before := e.lastKnob
 		var desired int32 = -1
 		if c.ControlPlane {
 			if err := e.controlPlane(rel).UpgradeBatch(); err != nil {
@@ -114,11 +115,11 @@ func c07Run(t vlib.TB, chk string, e *env, c C07Case) (wrote int) {
 			}
 			desired = ctx.DesiredUpdatedReplicas
 		}
-		after, _ := e.knob()
+		e.observe() // the workload controller complies completely, every pod is ready
+		after := e.lastKnob
 		if after != before {
 			wrote++
 		}
-		e.observe() // the workload controller complies completely, every pod is ready
 
 		if c.ControlPlane {
 			if err := e.controlPlane(rel).EnsureBatchPodsReadyAndLabeled(); err != nil {
@@ -176,12 +177,18 @@ func replayC07(t *testing.T, chk string) bool {
 	var rc C07Case
 	ok, _ := vlib.LoadReplay(chk, &rc)
 	if !ok {
-		return false
+		// a replay file of another sub-check: nothing to do here
+		return os.Getenv("VERIF_REPLAY") != ""
 	}
 	e := newEnv(kindByName(rc.Kind), int32(rc.N), rc.Pods)
 	c07Run(t, chk, e, rc)
 	return true
 }
+
+// exhaustiveKinds: the control planes of the exhaustive enumeration. Native and Advanced
+// StatefulSet are served by one implementation (partitionstyle/statefulset) that differs only in
+// the object type it reads; the Advanced one is covered by the sampled sub-check.
+var exhaustiveKinds = []Kind{PartCloneSet, PartStatefulSet, PartDaemonSet, PartDeployment, CanaryDeployment, BGCloneSet, BGDeployment}
 
 // TestC07Arith: exhaustive over (n, single plan value) x every control plane, controller level.
 func TestC07Arith(t *testing.T) {
@@ -194,13 +201,13 @@ func TestC07Arith(t *testing.T) {
 	var samples []any
 	point := func(envs []*env, n int, v Val) {
 		planned := refPlanned(v, n)
-		for k := Kind(0); k < nKinds; k++ {
-			evals++
+		for _, k := range exhaustiveKinds {
 			plan := []Val{v}
 			if sig := knownClass(k, n, plan, 0); sig != "" && excludeKnown(sig) {
 				vlib.Excluded(chkC07, sig)
 				continue
 			}
+			evals++
 			e := envs[k]
 			e.reset()
 			c := C07Case{Kind: k.String(), N: n, Plan: plan}
@@ -221,12 +228,11 @@ func TestC07Arith(t *testing.T) {
 	for n := sh; n <= N; n += nsh {
 		if n == 0 {
 			// every control plane returns from UpgradeBatch / EnsureBatchPodsReadyAndLabeled before
-			// computing a batch context when the workload has no replicas
-			evals += int64(nKinds) * (101 + 3)
+			// computing a batch context when the workload has no replicas: nothing to evaluate
 			continue
 		}
 		envs := make([]*env, nKinds)
-		for k := Kind(0); k < nKinds; k++ {
+		for _, k := range exhaustiveKinds {
 			envs[k] = newEnv(k, int32(n), false)
 		}
 		for p := 0; p <= 100; p++ {
@@ -236,7 +242,7 @@ func TestC07Arith(t *testing.T) {
 			point(envs, n, Val{V: i})
 		}
 	}
-	vlib.Note(chkC07, fmt.Sprintf("shard %d/%d: replicas n = %d, %d+%d, ... <= %d; per n: percent 0..100 and int 0..n+2, each on %d control planes", sh, nsh, sh, sh, nsh, N, int(nKinds)))
+	vlib.Note(chkC07, fmt.Sprintf("shard %d/%d: replicas n = %d, %d+%d, ... <= %d; per n: percent 0..100 and int 0..n+2, each on %d control planes", sh, nsh, sh, sh, nsh, N, len(exhaustiveKinds)))
 	vlib.RecordBulk(chkC07, evals, nt, true, samples)
 }
 
